@@ -274,7 +274,7 @@ PROPS = {
                     "without them; distinct_nontrivial counts distinct (round, tree size) keys",
             "assumptions": ["os.walk order, Unicode file names, permissions and pre-existing directories are runtime behaviour: exercised, not proved",
                             "the model sees a run as the list of files in walk order with their decoded text or a failure mark"]},
-    "C19": {"modules": ["Netconan.Props.C19", "Netconan.Props.C04Data"], "scopes": [cli_checks.cli_scope],
+    "C19": {"modules": ["Netconan.Props.C19", "Netconan.Props.C04Data", "Netconan.Props.SrcCli"], "scopes": [cli_checks.cli_scope],
             "checker_cmd": "cd lean && lake build Netconan.Props.C19 && lake env lean <#print axioms audit>",
             "rule": "netconan.netconan.main in-process with anonymize_files recorded: every validation-relevant option (-a, -u, -s, -d, -p) in {absent, command line, "
                     "config file, both} exhaustively (4^5), plus seeded vectors over all 14 options incl. empty/out-of-range/non-numeric host bits and empty "
